@@ -29,6 +29,7 @@ func scenarios(tier string) []sched.Scenario {
 	cfg := vsched.Config{MaxSteps: 400000, Filter: coarse, OnPoint: oxc.PointHook, MaxTime: int64(10 * time.Minute)}
 	mk := func() []oxc.Oracle { return []oxc.Oracle{&oxc.LogOracle{}} }
 	specs := []oxc.ScenarioSpec{
+		{Name: "rolling-isolation", Fault: "rolling-isolation", Clients: 0, PerCli: 0, SyncData: true},
 		{Name: "leader-crash", Fault: "leader-crash", Clients: 2, PerCli: 1, SyncData: true},
 		{Name: "spurious-failover", Fault: "spurious-failover", Clients: 2, PerCli: 1, SyncData: true},
 		{Name: "swap", Fault: "swap", Clients: 2, PerCli: 1, SyncData: true},
